@@ -20,11 +20,18 @@ def run_driver(name, wd, tier, nshards=None, args=(), timeout=None, env=None):
         make_cert()
     outs = [os.path.join(wd, '%s_%d.jsonl' % (name, i)) for i in range(nshards)]
 
+    def cap():
+        # a driver process may not grow without bound: on a tree whose queue makes bounces of bounces without end (seeded changes of
+        # C13) sixteen shards reached 14 GB each before their CPU watchdog fired, and the kernel's OOM killer took a shard of an
+        # unrelated check running at the same time with it.  8 GB of address space is 200 times what a driver needs.
+        import resource
+        resource.setrlimit(resource.RLIMIT_AS, (8 << 30, 8 << 30))
+
     def one(i):
         cmd = [PY, '-m', 'harness.drivers.' + name, outs[i], str(i), str(nshards), tier, str(seed())] + list(args)
         try:
             p = subprocess.run(cmd, cwd=VERIF, env=driver_env(env), stdout=subprocess.PIPE, stderr=subprocess.PIPE,
-                               timeout=timeout, text=True, errors='replace')
+                               timeout=timeout, text=True, errors='replace', preexec_fn=cap)
         except subprocess.TimeoutExpired:
             raise MachineryError('driver %s shard %d did not end within %d s' % (name, i, timeout))
         if p.returncode != 0:
